@@ -48,6 +48,21 @@ def special_case(rng: random.Random, kind: str):
         ent = gen2.add_component('component', node=gen2.root, n_provides=1, n_requires=1,
                                  n_injected=0)
         gen = gen2
+    elif kind == 'component-named-like-its-namespace':
+        # namespace Toaster { component Toaster } - and Acme.Kitchen.Acme one level deeper
+        nodes = [n for n in gen.nodes if n.fqn]
+        if not nodes:
+            return None
+        node = rng.choice(nodes)
+        ent = gen.add_component('component', node=node, n_provides=1, n_requires=1, n_injected=0)
+        fqn, comp, _node = ent
+        twin = node.fqn[0]
+        if twin in node.taken or any(p.name.lower() == twin.lower() for p in comp.ports):
+            return None
+        comp.name = [twin]
+        new_ent = (node.fqn + [twin], comp, node)
+        gen.components[gen.components.index(ent)] = new_ent
+        ent = new_ent
     else:  # empty-interface ports
         ent = gen.add_component('component', n_provides=2, n_requires=2, n_injected=0)
     if not gen.respell_all():
@@ -99,7 +114,7 @@ def hostile_case(rng: random.Random, which: str):
 def make_case(seed: int, stream: int):
     rng = random.Random(f'{PROP}:{seed}:{stream}')
     kinds = ['global-component', 'no-ports', 'only-injected', 'empty-interface',
-             'global-everything']
+             'global-everything', 'component-named-like-its-namespace']
     if stream < len(kinds):
         for _ in range(20):
             got = special_case(rng, kinds[stream])
